@@ -155,6 +155,13 @@ func (sc *StateCache) Get(key, blockHash string) (Value, bool) {
 	}
 
 	bvs := blockValues.(*lru.Cache)
+	// A commit publishes a block's values before its link to the previous block, and
+	// lookups take no lock. Read every block's link before its value: once the link
+	// is visible the block's own value (if any) is visible too. Reading them the other
+	// way round lets a lookup that overlaps the block's commit miss the block's value,
+	// then follow its link and return (and memoise) an ancestor's stale value.
+	verifYield("Get:hashCache.Get")
+	prevHash, linked := sc.hashCache.Get(blockHash)
 	verifYield("Get:bvs.Get")
 	vv, ok := bvs.Get(blockHash)
 	if ok {
@@ -173,16 +180,16 @@ func (sc *StateCache) Get(key, blockHash string) (Value, bool) {
 	var count int
 	for {
 		count++
-		// get previous block hash
-		verifYield("Get:hashCache.Get")
-		prevHash, ok := sc.hashCache.Get(blockHash)
-		if !ok {
+		// previous block hash
+		if !linked {
 			// could not find previous hash
 			logging.Logger.Debug("state cache - see gap", zap.String("block", blockHash))
 			return nil, false
 		}
 
 		blockHash = prevHash.(string)
+		verifYield("Get:hashCache.Get(prev)")
+		prevHash, linked = sc.hashCache.Get(blockHash)
 		verifYield("Get:bvs.Get(prev)")
 		vv, ok = bvs.Get(blockHash)
 		if !ok {
